@@ -99,8 +99,20 @@ def build_block(src, selector, rx, opts, sections, emitter):
 
     lps = X.loops_in(m_text, 0, len(m_text))
     for key, val in sections.items():
-        if key.startswith("loop "):
-            n = int(key.split()[1])
+        if key.startswith("loop ") or key.startswith("loop? "):
+            optional = key.startswith("loop? ")
+            spec_ = key.split(None, 1)[1].strip()
+            rm_ = re.match(r"/(.*)/\s*(\d+)?$", spec_)
+            if rm_:
+                kk = int(rm_.group(2) or 1)
+                hits = [lp for lp in lps if re.search(rm_.group(1), m_text[lp[0]:lp[1]])]
+                if len(hits) < kk:
+                    if optional:
+                        continue
+                    raise X.ExtractError(f"{selector} block: loop /{rm_.group(1)}/ #{kk} not found (lost anchor)")
+                add_insert(hits[kk - 1][1], "\n" + val.rstrip("\n") + "\n")
+                continue
+            n = int(spec_)
             if n < 1 or n > len(lps):
                 raise X.ExtractError(f"{selector} block: loop {n} not found ({len(lps)} loops) (lost anchor)")
             add_insert(lps[n - 1][1], "\n" + val.rstrip("\n") + "\n")
